@@ -33,6 +33,8 @@ pub const OPS: &[&str] = &[
     // repair Never + periodic Delaunay check EveryN(n), after k preparatory insertions so that the
     // measured insertion lands on every phase of the check counter
     "insert_chk2_p0", "insert_chk2_p1", "insert_chk3_p0", "insert_chk3_p1", "insert_chk3_p2",
+    // repair EveryN(2) at both phases of the insertion counter, both insertion APIs
+    "insert_rep2_p0", "insert_rep2_p1", "insert_rep2s_p0", "insert_rep2s_p1",
 ];
 
 /// everything the public API shows: vertices, cells, neighbour relation, data, counts, policies
@@ -59,12 +61,52 @@ fn dup_probe_ok<const D: usize>(dt: &Dt<D>, rng: &mut Rng) -> bool {
     match catch(|| d2.insert(v)) { Ok(Err(e)) => format!("{e:?}").contains("DuplicateCoordinates"), Ok(Ok(_)) => false, Err(_) => false }
 }
 
+/// "later operations behave as if the failed call had never been made": the same three follow-up
+/// insertions (statistics API) under counter-dependent policies (repair and check EveryN(2)) on
+/// the triangulation that saw the failed call and on a clone taken just before it; returns the
+/// outcome sequence and the final fingerprint
+fn followup<const D: usize>(dt: &mut Dt<D>, seed: u64) -> String {
+    verif::disarm();
+    let n2 = NonZeroUsize::new(2).unwrap();
+    dt.set_delaunay_repair_policy(DelaunayRepairPolicy::EveryN(n2));
+    dt.set_delaunay_check_policy(DelaunayCheckPolicy::EveryN(n2));
+    let mut r = Rng::new(seed);
+    let mut s = String::new();
+    for i in 0..3 {
+        let mut p = [0.0f64; D];
+        for x in p.iter_mut() { *x = r.range(-6, 6) as f64 + 0.375 + i as f64 / 64.0; }
+        let v: Vertex<f64, tri::VData, D> = Vertex::new_with_uuid(Point::new(p), r.uuid(), Some(-20 - i));
+        let o = match catch(|| dt.insert_with_statistics(v)) {
+            Ok(Ok((InsertionOutcome::Inserted { .. }, st))) => format!("ins:{}", st.attempts),
+            Ok(Ok((InsertionOutcome::Skipped { error }, _))) => format!("skip:{}", tri::err_kind(&format!("{error:?}"))),
+            Ok(Err(e)) => format!("err:{}", tri::err_kind(&format!("{e:?}"))),
+            Err(_) => "panic".to_string(),
+        };
+        s.push_str(&o); s.push('|');
+    }
+    s + &full_fingerprint(dt)
+}
+
 /// policy setup that belongs to the operation's configuration (done BEFORE the fingerprint is taken)
 fn prep_op<const D: usize>(dt: &mut Dt<D>, op: &str) {
     let n1 = NonZeroUsize::new(1).unwrap();
     if op == "remove_bare" { dt.set_delaunay_repair_policy(DelaunayRepairPolicy::Never); dt.set_delaunay_check_policy(DelaunayCheckPolicy::EndOnly); }
     if op == "insert_bare" { dt.set_delaunay_repair_policy(DelaunayRepairPolicy::Never); dt.set_delaunay_check_policy(DelaunayCheckPolicy::EndOnly); }
     if op == "insert_checked" { dt.set_delaunay_check_policy(DelaunayCheckPolicy::EveryN(n1)); }
+    if op.starts_with("insert_rep2") {
+        let k = op[op.len() - 1..].parse::<usize>().unwrap_or(0);
+        let n2 = NonZeroUsize::new(2).unwrap();
+        dt.set_delaunay_repair_policy(DelaunayRepairPolicy::EveryN(n2));
+        dt.set_delaunay_check_policy(DelaunayCheckPolicy::EndOnly);
+        let mut r = Rng::new(0xC03A + k as u64);
+        let mut done = 0;
+        for _ in 0..(6 * k) {
+            if done == k { break; }
+            let mut p = [0.0f64; D];
+            for x in p.iter_mut() { *x = r.range(-7, 7) as f64 + 0.4375; }
+            if dt.insert(Vertex::new_with_uuid(Point::new(p), r.uuid(), Some(-40))).is_ok() { done += 1; }
+        }
+    }
     if let Some(rest) = op.strip_prefix("insert_chk") {
         let n = rest[..1].parse::<usize>().unwrap_or(2);
         let k = rest[3..].parse::<usize>().unwrap_or(0);
@@ -99,12 +141,12 @@ fn run_op<const D: usize>(dt: &mut Dt<D>, op: &str, rng: &mut Rng) -> String {
         p
     };
     let r: Result<Result<(), String>, String> = match op {
-        "insert" | "insert_bare" | "insert_checked" | "insert_chk2_p0" | "insert_chk2_p1" | "insert_chk3_p0" | "insert_chk3_p1" | "insert_chk3_p2" => {
+        "insert" | "insert_bare" | "insert_checked" | "insert_chk2_p0" | "insert_chk2_p1" | "insert_chk3_p0" | "insert_chk3_p1" | "insert_chk3_p2" | "insert_rep2_p0" | "insert_rep2_p1" => {
             let p = pick_pt(dt, rng);
             let v = Vertex::new_with_uuid(Point::new(p), rng.uuid(), Some(42));
             catch(|| dt.insert(v).map(|_| ()).map_err(|e| format!("err:{}", tri::err_kind(&format!("{e:?}")))))
         }
-        "insert_stats" => {
+        "insert_stats" | "insert_rep2s_p0" | "insert_rep2s_p1" => {
             let p = pick_pt(dt, rng);
             let v = Vertex::new_with_uuid(Point::new(p), rng.uuid(), Some(42));
             catch(|| match dt.insert_with_statistics(v) {
@@ -233,6 +275,7 @@ fn run_d<const D: usize>(cfg: &Cfg, rng: &mut Rng, out: &mut Out) {
                 let mut dt = w.dt.clone();
                 prep_op(&mut dt, op);
                 let before = full_fingerprint(&dt);
+                let mut pre = dt.clone();
                 verif::disarm();
                 verif::trace(true);
                 let mut r2 = rng.fork();
@@ -244,6 +287,10 @@ fn run_d<const D: usize>(cfg: &Cfg, rng: &mut Rng, out: &mut Out) {
                 out.case(&format!("x{D}_{si}_{op}_nat"), "txn", &format!("D={D} op={op} fp=none ord=0 fired=0"));
                 out.obs("outcome", &outcome);
                 out.obs("unchanged", if before == after { "1" } else { "0" });
+                if D <= 4 && (thorough || n % 3 == 0) && before == after && (outcome.starts_with("err") || outcome.starts_with("skipped")) {
+                    let fseed = 0xF0110 + n as u64;
+                    out.obs("followup_same", if followup(&mut dt, fseed) == followup(&mut pre, fseed) { "1" } else { "0" });
+                }
                 out.obs("dup_probe", if dup_probe_ok(&dt, rng) { "1" } else { "0" });
                 out.obs("trace", &reach.join(" "));
                 out.end();
@@ -255,6 +302,7 @@ fn run_d<const D: usize>(cfg: &Cfg, rng: &mut Rng, out: &mut Out) {
                     let mut dt = w.dt.clone();
                     prep_op(&mut dt, op);
                     let before = full_fingerprint(&dt);
+                    let mut pre = dt.clone();
                     verif::arm(fp, ord);
                     verif::trace(true);
                     let mut r2 = rng.fork();
@@ -268,6 +316,12 @@ fn run_d<const D: usize>(cfg: &Cfg, rng: &mut Rng, out: &mut Out) {
                     out.case(&format!("x{D}_{si}_{op}_{}_{ord}", fp.replace('.', "-")), "txn", &format!("D={D} op={op} fp={fp} ord={ord} fired={}", fired as u8));
                     out.obs("outcome", &outcome);
                     out.obs("unchanged", if before == after { "1" } else { "0" });
+                    if D <= 4 && (thorough || n % 3 == 0) && before == after && (outcome.starts_with("err") || outcome.starts_with("skipped")) {
+                        let fseed = 0xF0220 + n as u64;
+                        let (fa, fb) = (followup(&mut dt, fseed), followup(&mut pre, fseed));
+                        if fa != fb && std::env::var_os("VH_DEBUG").is_some() { eprintln!("FOLLOWUP x{D}_{si}_{op}_{fp}_{ord}\n A={}\n B={}", &fa[..fa.len().min(300)], &fb[..fb.len().min(300)]); }
+                        out.obs("followup_same", if fa == fb { "1" } else { "0" });
+                    }
                     out.obs("dup_probe", if dup_probe_ok(&dt, rng) { "1" } else { "0" });
                     out.obs("trace", &tr.join(" "));
                     out.end();
